@@ -2,9 +2,11 @@
    Only statements; every proof is `exact <lemma>`.
    reached s sched = the state after the micro-steps named by the (arbitrary) list of thread ids `sched`, from the start of
    scenario s, with the wiring table regenerated from the source (gen/Gen_C10.v) and the repaired reporter;
-   complete = run the lowest runnable thread until nothing can move. *)
+   complete = run the lowest runnable thread until nothing can move;
+   completed_obs c s sched = the observation (C10_Model.observe) of the execution that follows sched and is then completed,
+   including the largest number of threads that were inside the locked region at one moment on the way. *)
 From Coq Require Import NArith Arith Bool List.
-From CppUVerif Require Import C10_Wiring gen.Gen_C10 C10_Model C10_Steps C10_Lock C10_Data C10_Sched C10_Proofs C10_Main C10_Theorems.
+From CppUVerif Require Import C10_Wiring gen.Gen_C10 C10_Model C10_Steps C10_Lock C10_Data C10_Sched C10_Proofs C10_Main C10_Theorems C10_Refused.
 Import ListNotations.
 
 (* over the table regenerated from MemoryLeakWarningPlugin.cpp: each of the eleven function pointers set by
@@ -44,6 +46,16 @@ Print Assumptions C10_mutex.
 Example C10_mutex_sat : exists sched t th, nth_error (st_threads (reached ex_scenario sched)) t = Some th /\ in_cs (th_phase th) = true.
 Proof. exact ex_in_cs. Qed.
 
+(* however long a thread stays inside the locked region while the others ask for the lock (a schedule that lets the holder
+   rest and gives every other thread any number of turns): in every state of every execution at most one thread is between
+   Lock() and Unlock(), and so is the largest occupancy over the whole execution (the schedule followed by the run to the end) *)
+Theorem C10_locked_region_occupancy : forall s sched,
+  occupancy (reached s sched) <= 1 /\ run_peak (the_cfg s) sched (init_state s) <= 1.
+Proof. exact region_occupancy. Qed.
+Print Assumptions C10_locked_region_occupancy.
+Example C10_locked_region_occupancy_sat : occupancy (reached ex_scenario [0; 0; 1; 1; 1; 1; 1; 1]) = 1.
+Proof. exact ex_occupancy. Qed.
+
 (* the shared state after any execution is the result of applying its critical sections (and the output's allocations)
    one after another, in the order in which they wrote -- and that order is the order in which the lock was acquired:
    the acquisitions are exactly the threads of the trace's critical sections, followed by the one thread (if any) that
@@ -57,14 +69,14 @@ Print Assumptions C10_serialisable.
 (* for ALL schedules: completed, the observation satisfies the oracle (outstanding set = union of the per-thread sequential
    results, a misuse fails exactly its test, allocation numbers handed out once each, nothing foreign outstanding) *)
 Theorem C10_schedule_independent : forall s sched, valid s = true ->
-  spec s (observe s (complete (the_cfg s) (reached s sched))) = true.
+  spec s (completed_obs (the_cfg s) s sched) = true.
 Proof. exact schedule_independent. Qed.
 Print Assumptions C10_schedule_independent.
 
 (* so any two schedules of one scenario agree on verdicts, number of allocations and outstanding set *)
 Theorem C10_two_schedules_agree : forall s sched1 sched2, valid s = true ->
-  let o1 := observe s (complete (the_cfg s) (reached s sched1)) in
-  let o2 := observe s (complete (the_cfg s) (reached s sched2)) in
+  let o1 := completed_obs (the_cfg s) s sched1 in
+  let o2 := completed_obs (the_cfg s) s sched2 in
   o_verdicts o1 = o_verdicts o2 /\ o_adv o1 = o_adv o2 /\ incl (o_entries o1) (o_entries o2) /\ incl (o_entries o2) (o_entries o1).
 Proof. exact two_schedules. Qed.
 Print Assumptions C10_two_schedules_agree.
@@ -111,3 +123,41 @@ Print Assumptions C10_lock_released_after_misuse_old_refuted.
 Theorem C10_lock_needed : ~ (forall e s, valid s = true -> spec s (run_with (unlock_one e ts_table) true s) = true).
 Proof. exact lock_needed. Qed.
 Print Assumptions C10_lock_needed.
+
+(* a realloc that is turned down -- the size refused by the overflow guard, or the underlying realloc returning NULL -- changes
+   neither the outstanding set nor the lock: (1) its write step, in any state of any execution, leaves the same records in
+   the table (a record taken out is put back with its number), the counter, the lock (still with the caller) and what the
+   thread holds; (2) the whole operation, started with the lock free and run without interruption, ends with the same
+   records, the same counter, the lock free again, the thread still holding its block and at its next operation, and no
+   other thread touched *)
+Theorem C10_refused_realloc_changes_nothing :
+  (forall s sched t th k rf rest snap, valid s = true ->
+     nth_error (st_threads (reached s sched)) t = Some th -> th_pc th = ORefused k rf :: rest -> th_phase th = PRead snap ->
+     let st := reached s sched in
+     let st' := reached s (sched ++ [t]) in
+     (forall x, In x (sh_table (st_sh st')) <-> In x (sh_table (st_sh st)))
+     /\ sh_seq (st_sh st') = sh_seq (st_sh st)
+     /\ st_lock st' = st_lock st
+     /\ st_outallocs st' = st_outallocs st
+     /\ st_threads st' = set_nth (st_threads st) t (mk_thread (ORefused k rf :: rest) PExit (th_loc th) false))
+  /\ (forall s sched t th k rf rest, valid s = true ->
+     nth_error (st_threads (reached s sched)) t = Some th -> th_pc th = ORefused k rf :: rest ->
+     th_phase th = PIdle -> th_skip th = false -> st_lock (reached s sched) = LFree ->
+     let st := reached s sched in
+     let st' := reached s (sched ++ [t; t; t; t]) in
+     (forall x, In x (sh_table (st_sh st')) <-> In x (sh_table (st_sh st)))
+     /\ sh_seq (st_sh st') = sh_seq (st_sh st)
+     /\ st_lock st' = LFree
+     /\ st_outallocs st' = st_outallocs st
+     /\ st_threads st' = set_nth (st_threads st) t (mk_thread rest PIdle (th_loc th) false)).
+Proof. exact (conj refused_commit refused_operation). Qed.
+Print Assumptions C10_refused_realloc_changes_nothing.
+Example C10_refused_realloc_changes_nothing_sat :
+  valid refused_scenario = true
+  /\ (exists sched t th k rf rest snap,
+       nth_error (st_threads (reached refused_scenario sched)) t = Some th /\ th_pc th = ORefused k rf :: rest /\ th_phase th = PRead snap)
+  /\ (exists sched t th k rf rest,
+       nth_error (st_threads (reached refused_scenario sched)) t = Some th /\ th_pc th = ORefused k rf :: rest
+       /\ th_phase th = PIdle /\ th_skip th = false /\ st_lock (reached refused_scenario sched) = LFree)
+  /\ o_entries (run refused_scenario) = [(1, 0, 8%N)].
+Proof. exact (conj refused_valid (conj refused_ex_commit (conj refused_ex_operation (proj2 (proj2 (proj2 refused_ex_run)))))). Qed.
